@@ -40,7 +40,8 @@ def parseTok (sub : Ctx) (t : String) : Option (Notif Int) :=
     | _ => (t, sub)
   match body.toList with
   | 'N' :: r => (String.ofList r).toInt?.map (Notif.next c)
-  | 'E' :: r => (String.ofList r).toNat?.map (fun n => Notif.error c (.user n))
+  -- `E0` = Error(nil): an error ending whose error value is nil; carried as the reserved value `sentinel 0`
+  | 'E' :: r => (String.ofList r).toNat?.map (fun n => Notif.error c (if n = 0 then .sentinel 0 else .user n))
   | ['C'] => some (.complete c)
   | _ => none
 
